@@ -39,7 +39,7 @@ func c13R6(c *Ctx, rule string) {
 		r := c.Run(&engine.Automaton{Fn: fn, Tracks: []engine.Track{
 			engine.PredCond("fresh", func(cd engine.Cond) (bool, int) {
 				cd, _ = cd.WithY(func(d string) bool { return d == "recv.config().HeartbeatTimeout" })
-				if cd.IsRel && cd.X == "time.Since(recv.LastContact())" && cd.Y == "recv.config().HeartbeatTimeout" {
+				if cd.IsRel && cd.X == "time.Now().Sub(recv.LastContact())" && cd.Y == "recv.config().HeartbeatTimeout" {
 					switch cd.EdgeOrd(true) {
 					case engine.LT, engine.LT | engine.EQ:
 						return true, engine.True
